@@ -44,6 +44,7 @@ type RunOutcome struct {
 	Sample    []string
 	History   []Event
 	Harness   string // non-empty: harness failure (not a violation)
+	Streams   map[string]uint64
 }
 
 var runCounter atomic.Uint64
@@ -114,6 +115,7 @@ func RunOne(t *testing.T, prop *Property, seed uint64, ch *Chooser, tier string,
 	out.Decisions = ch.Log
 	out.Viol = env.Viol
 	out.TraceHash = env.TraceHash()
+	out.Streams = env.StreamHashes()
 	out.Stats = env.Stats
 	for k := range env.States {
 		out.States = append(out.States, k)
@@ -150,6 +152,7 @@ type Sut struct {
 	W   *simnet.World
 	E   *Engine
 	P   *Peer
+	CL  *ConnLog
 }
 
 var beginStrings = []string{"FIX.4.2", "FIX.4.4", "FIX.4.0", "FIX.4.1", "FIX.4.3", "FIXT.1.1"}
@@ -166,7 +169,13 @@ func DrawBaseCfg(env *Env) EngineCfg {
 	c.Port = 5001
 	c.HeartBtInt = 30
 	if c.Initiator {
+		// Timer settings are chosen so that two engine timers armed in the same handler never fall due
+		// at the same simulated instant (HeartBtInt, 1.2 x HeartBtInt, LogonTimeout, LogoutTimeout all
+		// differ for every HeartBtInt the workloads use): Go's select picks at random between two ready
+		// timer events, which the engine itself does not order either.
 		c.ReconnectInterval = 2
+		c.LogonTimeout = 11
+		c.LogoutTimeout = 7
 	}
 	return c
 }
@@ -180,7 +189,9 @@ func StartSut(env *Env, c EngineCfg) *Sut {
 		env.Fatalf("engine creation failed: %v (cfg %s)", err, c)
 	}
 	s := &Sut{Env: env, W: w, E: eng}
+	s.CL = NewConnLog(env, w)
 	s.P = NewPeer(env, w, eng)
+	s.P.CL = s.CL
 	env.Cfg["engine"] = c.String()
 	if err := eng.Start(); err != nil {
 		env.Fatalf("engine start failed: %v", err)
@@ -195,6 +206,7 @@ func StartSut(env *Env, c EngineCfg) *Sut {
 // bubble would never finish (the session's ticker runs forever).
 func (s *Sut) Teardown() {
 	s.Env.simSeconds = time.Since(s.Env.T0).Seconds()
+	s.Env.Freeze()
 	if sch := currentSched; sch != nil {
 		sch.Drain()
 		currentSched = nil
